@@ -68,6 +68,11 @@ COQ_TY = {"int": "Z", "bytes": "bytes", "bool": "bool", "boollist": "list bool",
           "path": "ppath",            # pathlib.Path object: Path.v's model (raw segments)
           "list:str": "list (list Z)",
           "optint": "option Z",       # Optional[int]
+          "char": "Z",                # a one-character str (the element of iterating over a str): its code point
+          "optstr": "option (list Z)",
+          "filebuf": "bytes",         # io.BytesIO(data) read sequentially: what is left of it
+          "iter:bool": "list bool",
+          "optbool": "option bool",   # a dict entry that holds a bool when present (None: the key is absent)
           "match2": "(list Z * list Z)",            # re.Match of a pattern with two groups that always take part
           "optmatch2": "option (list Z * list Z)",  # what pattern.match() returns
           "optmatch0": "option unit",               # a match object of which only the truth value is used
@@ -91,6 +96,11 @@ def coq_ty(t):
         return "list %s" % (inner if " " not in inner else "(%s)" % inner)
     if t in CLASSES3:
         return t
+    if t.startswith("key:"):      # a dict entry that may be absent: None = no such key
+        inner = coq_ty(t[4:])
+        return "option %s" % (inner if " " not in inner else "(%s)" % inner)
+    if t.startswith("opt:") and t[4:] in CLASSES3:    # Optional[C]: an attribute that holds an object of a record class or None
+        return "option %s" % t[4:]
     return COQ_TY[t]
 
 
@@ -139,6 +149,9 @@ for _n, _c, _r in (("_test_attribute", "test_attribute", "bool"), ("_get_unix_ex
                                       coqname=_c, selfargs={"attrs": "optint"}, self_props={"attributes": "attrs"},
                                       args=({"target_bit": "int"} if _n == "_test_attribute" else {}), ret=_r,
                                       out="AttrDecoders")
+# is_directory may also read self._file_info["emptystream"] / ["emptyfile"] (bool when present): each one the source reads
+# becomes one more explicit parameter (option bool, None = key absent), in this order, after attrs
+WAVE2["ArchiveFile.is_directory"]["opt_self_props"] = {"emptystream": ("emptystream", "optbool"), "emptyfile": ("emptyfile", "optbool")}
 for _n, _c, _r in (("_check_volumesize_valid", "check_volumesize_valid", "bool"),
                    ("_volumesize_unitconv", "volumesize_unitconv", "int")):
     # methods of cli.Cli that only read the constants self.unit_pattern (compiled in __init__) and Cli.dunits
@@ -181,10 +194,15 @@ CLASSES3 = {
     "SubstreamsInfo": {"digests": "list:int", "digestsdefined": "boollist", "unpacksizes": "optlist:int",
                        "num_unpackstreams_folders": "list:int"},
 }
-DICT_RECORDS = ("Coder",)                  # records that are Python dicts with string keys
+CLASSES3["StreamsInfo"] = {"packinfo": "opt:PackInfo", "unpackinfo": "opt:UnpackInfo", "substreamsinfo": "opt:SubstreamsInfo"}
+# an entry of FilesInfo.files: a dict in which only "emptystream" is always there (key:T = the key may be absent)
+CLASSES3["FileEntry"] = {"emptystream": "bool", "emptyfile": "key:bool", "filename": "key:str", "creationtime": "key:optint",
+                         "lastaccesstime": "key:optint", "lastwritetime": "key:optint", "attributes": "key:optint"}
+CLASSES3["FilesInfo"] = {"files": "list:FileEntry", "emptyfiles": "boollist"}
+DICT_RECORDS = ("Coder", "FileEntry")                  # records that are Python dicts with string keys
 CTOR_RECORDS = {"Bond": ["incoder", "outcoder"]}   # classes built as C(a, b): __init__(self, a, b) stores its arguments
 # attributes __init__ sets to None that no translated method touches (compressor objects, password, ...)
-IGNORED_ATTRS = {"Folder": ["decompressor", "compressor", "files", "password"]}
+IGNORED_ATTRS = {"Folder": ["decompressor", "compressor", "files", "password"], "FilesInfo": ["antifiles"]}
 # exception classes -> the err constructor of Prelude.v the model uses for them (anything else: EOther)
 EXC_ERR = {"Bad7zFile": "EBad7z", "UnsupportedCompressionMethodError": "EUnsupported"}
 # module-level objects of other modules whose attributes are constants: local name -> (module file, instance name)
@@ -239,6 +257,39 @@ _rec3("SubstreamsInfo.retrieve", "retrieve", "SubstreamsInfo", "SubstreamsInfo_r
       args={"numfolders": "int", "folders": "list:Folder"}, ret="SubstreamsInfo")
 _rec3("SubstreamsInfo.default", "classinit", "SubstreamsInfo", "SubstreamsInfo_default", args={"folders": "list:Folder"}, ret="self")
 _rec3("SubstreamsInfo.write", "objwriter", "SubstreamsInfo", "SubstreamsInfo_write")
+
+# stage 4: StreamsInfo
+_rec3("StreamsInfo.__init__", "init", "StreamsInfo", "StreamsInfo_init", ret="StreamsInfo")
+_rec3("StreamsInfo.read", "objreader", "StreamsInfo", "StreamsInfo_read", ret="self")
+_rec3("StreamsInfo.retrieve", "retrieve", "StreamsInfo", "StreamsInfo_retrieve", ret="StreamsInfo", reader="read")
+_rec3("StreamsInfo.write", "objwriter", "StreamsInfo", "StreamsInfo_write")
+# stage 5: names (UTF-16LE), then the FilesInfo pieces
+WAVE2["read_utf16"] = dict(file="archiveinfo.py", qual="read_utf16", kind="reader", args={}, ret="str", out="ArchiveinfoRecords")
+WAVE2["write_utf16"] = dict(file="archiveinfo.py", qual="write_utf16", kind="writer", args={"val": "str"}, ret=None,
+                            out="ArchiveinfoRecords")
+_rec3("FileEntry", "record", "FileEntry", "FileEntry")
+_rec3("FilesInfo.__init__", "init", "FilesInfo", "FilesInfo_init", ret="FilesInfo")
+_rec3("FilesInfo._read_name", "objreader", "FilesInfo", "FilesInfo_read_name", ret="self")
+_rec3("FilesInfo._read_attributes", "objreader", "FilesInfo", "FilesInfo_read_attributes", args={"defined": "boollist"}, ret="self")
+# methods that take the name of a dict key: one generated function per key the class passes (the parameter is replaced by the constant)
+for _key in ("creationtime", "lastaccesstime", "lastwritetime"):
+    _rec3("FilesInfo._read_times[%s]" % _key, "objreader", "FilesInfo", "FilesInfo_read_times_" + _key, ret="self",
+          subst={"name": _key})
+    WAVE2["FilesInfo._read_times[%s]" % _key]["qual"] = "FilesInfo._read_times"
+# the branches for names / attributes kept outside the header (fp.tell / fp.seek(x, 0): "no-cover") and START_POS
+# (_read_start_pos compares bytes with an int: it always fails) are not translated
+_rec3("FilesInfo._read", "objreader", "FilesInfo", "FilesInfo_read", ret="self", fuel=True,
+      partial=["file method tell", "file method seek", "method self._read_start_pos"])
+_rec3("FilesInfo.retrieve", "retrieve", "FilesInfo", "FilesInfo_retrieve", ret="FilesInfo")
+_rec3("FilesInfo._are_there", "pure", "FilesInfo", "FilesInfo_are_there", args={"vector": "boollist"}, ret="bool", static=True)
+_rec3("FilesInfo._write_names", "objwriter", "FilesInfo", "FilesInfo_write_names", locals={"names": "list:str"})
+_rec3("FilesInfo._write_attributes", "objwriter", "FilesInfo", "FilesInfo_write_attributes")
+for _key in ("creationtime", "lastaccesstime", "lastwritetime"):
+    _rec3("FilesInfo._write_times[%s]" % _key, "objwriter", "FilesInfo", "FilesInfo_write_times_" + _key, args={"propid": "bytes"},
+          subst={"name": _key})
+    WAVE2["FilesInfo._write_times[%s]" % _key]["qual"] = "FilesInfo._write_times"
+# FilesInfo.write pads to a multiple of 4 from file.tell(): the position at entry is the explicit parameter pos0
+_rec3("FilesInfo.write", "objwriter", "FilesInfo", "FilesInfo_write", tell=True, locals={"emptystreams": "boollist"})
 
 for _k, _v in WAVE2.items():
     if _v["out"] == "ArchiveinfoRecords":
@@ -316,12 +367,12 @@ def init_text(module, cls, spec):
     vals = []
     for f, t in fields.items():
         if f not in ini:
-            vals.append(DEFAULT_VALUE[t])
+            vals.append("None" if t.startswith("opt:") or t.startswith("key:") else DEFAULT_VALUE[t])
             continue
         v = ini[f]
         if isinstance(v, ast.List) and not v.elts and (t.startswith("list:") or t == "boollist"):
             vals.append("[]")
-        elif isinstance(v, ast.Constant) and v.value is None and t in ("optint", "optbytes", "optlist:int"):
+        elif isinstance(v, ast.Constant) and v.value is None and (t in ("optint", "optbytes", "optlist:int") or t.startswith("opt:")):
             vals.append("None")
         elif isinstance(v, ast.Constant) and isinstance(v.value, bool) and t == "bool":
             vals.append("true" if v.value else "false")
@@ -340,12 +391,17 @@ def retrieve_text(module, cls, spec):
     ok = node is not None and [a.arg for a in node.args.args] == ["cls", "file"] + extra \
         and len(node.decorator_list) == 1 and ast.unparse(node.decorator_list[0]) == "classmethod"
     body = [st for st in node.body if not (isinstance(st, ast.Expr) and isinstance(st.value, ast.Constant))] if ok else []
-    call = "_read(%s)" % ", ".join(["file"] + extra)
+    call = "%s(%s)" % (spec.get("reader", "_read"), ", ".join(["file"] + extra))
     form1 = ok and len(body) == 1 and isinstance(body[0], ast.Return) and ast.unparse(body[0].value) == "cls()." + call
     form2 = ok and [ast.unparse(st) for st in body] == ["obj = cls()", "obj." + call, "return obj"]
     if not (form1 or form2):
         raise Refused("%s.retrieve is neither `return cls()._read(file)` nor `obj = cls(); obj._read(file); return obj`" % cls)
     sig = " ".join("(%s : %s)" % (a, coq_ty(t)) for a, t in spec.get("args", {}).items())
+    rsp = WAVE2.get("%s.%s" % (cls, spec.get("reader", "_read")), {})
+    if rsp.get("fuel"):
+        # the reader loops on explicit fuel: so does retrieve
+        return "Definition %s (inp : bytes) (fuel : nat) %s: res (%s * bytes) :=\n  %s %s_init inp fuel%s." % (
+            spec["coqname"], sig + " " if sig else "", cls, rsp["coqname"], cls, "".join(" " + a for a in extra))
     return "Definition %s (inp : bytes) %s: res (%s * bytes) :=\n  %s_read %s_init inp%s." % (
         spec["coqname"], sig + " " if sig else "", cls, cls, cls, "".join(" " + a for a in extra))
 
@@ -422,6 +478,8 @@ class FnTr:
                 return p, "(- %s)" % v, "int"
             if isinstance(e.op, ast.Not) and t == "bool":
                 return p, "(negb %s)" % v, "bool"
+            if isinstance(e.op, ast.Not) and t == "optbool":
+                return p, "(negb %s)" % self.truthy(e, v, t), "bool"
             if isinstance(e.op, ast.Invert) and t == "int" and self.module is not None:
                 return p, "(Z.lnot %s)" % v, "int"
             self.refuse(e, "unary")
@@ -615,6 +673,8 @@ class FnTr:
                 and e.attr in self.spec["state"] and "self" not in self.ty:
             return [], self.spec["state"][e.attr][0], self.spec["state"][e.attr][1]
         p, v, t = self.expr(e.value)
+        if t.startswith("opt:"):
+            p, v, t = self.unwrap(p, v, t)       # AttributeError on None
         if t in CLASSES3 and t not in DICT_RECORDS and e.attr in CLASSES3[t]:
             return p, "(%s_%s %s)" % (t, e.attr, v), CLASSES3[t][e.attr]
         if t == "buffer" and e.attr == "view":
@@ -639,6 +699,8 @@ class FnTr:
             return "(py_is_some %s)" % v
         if t == "optlist:int":
             return "(match %s with Some l => py_nonempty l | None => false end)" % v
+        if t == "optbool":
+            return "(match %s with Some b => b | None => false end)" % v
         self.refuse(e, "truth value of " + t)
 
     def test(self, e):
@@ -674,6 +736,13 @@ class FnTr:
             return v, t
         if want in ("optint", "optbytes", "optlist:int") and t == "nonetype":
             return "None", want
+        if want.startswith("key:") and t != want:
+            v2, _ = self.coerce(node, v, t, want[4:])       # d[k] = value: the key is there afterwards
+            return "(Some %s)" % v2, want
+        if want.startswith("opt:") and t == "nonetype":
+            return "None", want
+        if want.startswith("opt:") and t == want[4:]:
+            return "(Some %s)" % v, want
         if (want, t) in (("optint", "int"), ("optbytes", "bytes"), ("optlist:int", "list:int")):
             return "(Some %s)" % v, want
         if want == "optlist:int" and t == "nonetype":
@@ -689,6 +758,9 @@ class FnTr:
         if t in ("optint", "optbytes", "optlist:int"):
             t1 = self.fresh()
             return p + ["do %s <- py_unwrap %s;" % (t1, v)], t1, t[3:]
+        if t.startswith("opt:"):
+            t1 = self.fresh()
+            return p + ["do %s <- py_unwrap %s;" % (t1, v)], t1, t[4:]
         return p, v, t
 
     def has_io(self, node):
@@ -733,8 +805,47 @@ class FnTr:
                                                                            "    else Ok (%s, false)) [];" % acc]
             lines += ["let %s := %ss in" % (nm, nm)]
             return lines, nm, ("boollist" if te == "bool" else "list:" + te)
+        if g.ifs and self.spec.get("out") == "ArchiveinfoRecords" and isinstance(g.target, ast.Name) and g.target.id not in self.ty \
+                and not self.has_io(e):
+            # [elt for x in L if cond]
+            p, v, t = self.expr(it)
+            elty = "bool" if t == "boollist" else t[5:] if t.startswith("list:") else self.refuse(e, "comprehension over " + t)
+            saved = dict(self.ty)
+            self.ty[g.target.id] = elty
+            pc, c = self.test(g.ifs[0])
+            pe, ve, te = self.expr(e.elt)
+            self.ty = saved
+            acc = self.fresh() + "acc"
+            nm = self.fresh()
+            lines = p + ["do %ss <- for_m %s (fun %s %s =>" % (nm, v, g.target.id, acc)] + ["    " + y for y in pc]
+            lines += ["    if %s then" % c] + ["      " + y for y in pe] + ["      Ok (%s ++ [%s], false)" % (acc, ve),
+                                                                           "    else Ok (%s, false)) [];" % acc]
+            lines += ["let %s := %ss in" % (nm, nm)]
+            return lines, nm, ("boollist" if te == "bool" else "list:" + te)
         if g.ifs:
             self.refuse(e, "comprehension filter")
+        if isinstance(e.elt, ast.Dict) and self.spec.get("out") == "ArchiveinfoRecords" and isinstance(it, ast.Call) \
+                and isinstance(it.func, ast.Name) and it.func.id == "range" and len(it.args) == 1 and "range" not in self.local_names() \
+                and isinstance(g.target, ast.Name) and all(isinstance(k, ast.Constant) and isinstance(k.value, str) for k in e.elt.keys) \
+                and all(isinstance(v, ast.Constant) for v in e.elt.values):
+            # [{"k": const, ..} for _ in range(n)]: n separate dicts with these keys; as values they are equal
+            keys = {k.value: v for k, v in zip(e.elt.keys, e.elt.values)}
+            rs = [r for r in DICT_RECORDS if set(keys) <= set(CLASSES3[r])
+                  and all(ft.startswith("key:") for fk, ft in CLASSES3[r].items() if fk not in keys)]
+            if len(rs) != 1:
+                self.refuse(e, "dict literal with keys %s is not one of the known records" % sorted(keys))
+            vs = []
+            for fk, ft in CLASSES3[rs[0]].items():
+                if fk in keys:
+                    pv, vv, tv = self.expr(keys[fk])
+                    vv, _ = self.coerce(e, vv, tv, ft)
+                    vs.append(vv)
+                else:
+                    vs.append("None")
+            p, hi, t = self.expr(it.args[0])
+            if t != "int":
+                self.refuse(e, "range argument type")
+            return p, "(repeat (mk%s %s) (Z.to_nat %s))" % (rs[0], " ".join(vs), hi), "list:" + rs[0]
         if isinstance(it, ast.Call) and isinstance(it.func, ast.Name) and it.func.id == "range" and len(it.args) == 1 \
                 and "range" not in self.local_names():
             p, hi, t = self.expr(it.args[0])
@@ -806,15 +917,32 @@ class FnTr:
         self.refuse(e, "binop %s on %s,%s" % (type(op).__name__, tl, tr))
 
     def compare(self, e):
+        if len(e.ops) == 2 and self.spec.get("out") == "ArchiveinfoRecords" and isinstance(e.comparators[0], (ast.Name, ast.Constant)):
+            # a OP b OP c = (a OP b) and (b OP c); b is a name / constant: evaluating it twice is evaluating it once
+            pa, va, ta = self.compare(ast.copy_location(ast.Compare(left=e.left, ops=[e.ops[0]], comparators=[e.comparators[0]]), e))
+            pb, vb, tb = self.compare(ast.copy_location(ast.Compare(left=e.comparators[0], ops=[e.ops[1]], comparators=[e.comparators[1]]), e))
+            if pb:
+                self.refuse(e, "effect in the second half of a chained comparison")
+            return pa, "(%s && %s)" % (va, vb), "bool"
         if len(e.ops) != 1:
             self.refuse(e, "chained comparison")
+        c0 = e.comparators[0]
+        if isinstance(e.ops[0], (ast.In, ast.NotIn)) and isinstance(c0, ast.Call) and isinstance(c0.func, ast.Attribute) \
+                and c0.func.attr == "keys" and not c0.args and not c0.keywords:
+            df = self.dict_field(c0.func.value, e.left)
+            if df is None:
+                self.refuse(e, "key test on something that is not a known dict record")
+            v = "(py_is_some %s)" % df[1] if df[2].startswith("key:") else "true"
+            return df[0], (v if isinstance(e.ops[0], ast.In) else "(negb %s)" % v), "bool"
         pl, l, tl = self.expr(e.left)
         pr, r, tr = self.expr(e.comparators[0])
-        if isinstance(e.ops[0], (ast.Is, ast.IsNot)) and tr == "nonetype" and self.fields and not pl \
-                and tl in ("int", "bool", "bytes", "list:int", "boollist"):
+        if isinstance(e.ops[0], (ast.Is, ast.IsNot)) and tr == "nonetype" and tl == "optstr":
+            return pl, ("(negb (py_is_some %s))" if isinstance(e.ops[0], ast.Is) else "(py_is_some %s)") % l, "bool"
+        if isinstance(e.ops[0], (ast.Is, ast.IsNot)) and tr == "nonetype" and (self.fields or self.spec.get("out") == "ArchiveinfoRecords") \
+                and not pl and (tl in ("int", "bool", "bytes", "list:int", "boollist") or tl.startswith("list:")):
             # a record field / value of a non-optional type is never None
             return [], ("false" if isinstance(e.ops[0], ast.Is) else "true"), "bool"
-        if isinstance(e.ops[0], (ast.Is, ast.IsNot)) and tr == "nonetype" and tl in ("optint", "optbytes", "optlist:int") and self.module is not None:
+        if isinstance(e.ops[0], (ast.Is, ast.IsNot)) and tr == "nonetype" and (tl in ("optint", "optbytes", "optlist:int") or tl.startswith("opt:")) and self.module is not None:
             return pl, ("(negb (py_is_some %s))" if isinstance(e.ops[0], ast.Is) else "(py_is_some %s)") % l, "bool"
         if isinstance(e.ops[0], (ast.In, ast.NotIn)) and tl == "int" and tr in ("set:int", "list:int") and self.module is not None:
             v = "(py_in_ints %s %s)" % (l, r)
@@ -848,7 +976,11 @@ class FnTr:
         if self.module is not None and isinstance(e.slice, ast.Constant) and isinstance(e.slice.value, str):
             pb, b, tb = self.expr(e.value)
             if tb in DICT_RECORDS and e.slice.value in CLASSES3[tb]:
-                return pb, "(%s_%s %s)" % (tb, e.slice.value, b), CLASSES3[tb][e.slice.value]
+                ft = CLASSES3[tb][e.slice.value]
+                if ft.startswith("key:"):
+                    t1 = self.fresh()
+                    return pb + ["do %s <- py_unwrap (%s_%s %s);" % (t1, tb, e.slice.value, b)], t1, ft[4:]      # KeyError
+                return pb, "(%s_%s %s)" % (tb, e.slice.value, b), ft
             self.refuse(e, "string key on " + tb)
         if self.kind == "method" and isinstance(e.value, ast.Attribute) and isinstance(e.value.value, ast.Name) \
                 and e.value.value.id == "self":
@@ -903,9 +1035,86 @@ class FnTr:
             return pb + pi + ["do %s <- py_index %s %s;" % (t, b, i)], t, tb[5:]
         self.refuse(e, "subscript of " + tb)
 
+    def dict_field(self, x, key):
+        """x["key"] for x of a dict-record type: (pre, Gallina field value, field type) or None"""
+        if not (isinstance(key, ast.Constant) and isinstance(key.value, str)) or self.module is None:
+            return None
+        if isinstance(x, ast.Name) and ("%s__%s" % (x.id, key.value)) in self.ty and x.id not in self.ty:
+            n = "%s__%s" % (x.id, key.value)          # the variable of a loop that rebuilds its list (lowered)
+            return [], n, self.ty[n]
+        if isinstance(x, ast.Name) and self.ty.get(x.id) in DICT_RECORDS and key.value in CLASSES3[self.ty[x.id]]:
+            r = self.ty[x.id]
+            return [], "(%s_%s %s)" % (r, key.value, x.id), CLASSES3[r][key.value]
+        return None
+
     def call(self, e):
         f = e.func
         args = e.args
+        # a call that reads from a sub-buffer (x = io.BytesIO(data)): translated as if x were the file, on the variable x
+        sub = None
+        if isinstance(f, ast.Attribute) and isinstance(f.value, ast.Name) and self.ty.get(f.value.id) == "filebuf":
+            sub = f.value.id
+        elif args and isinstance(args[0], ast.Name) and self.ty.get(args[0].id) == "filebuf":
+            sub = args[0].id
+        if sub is not None and self.io == "inp" and self.filevar != sub:
+            if any(self.has_io(a) for a in args[(0 if isinstance(f, ast.Attribute) and isinstance(f.value, ast.Name) and f.value.id == sub else 1):]):
+                self.refuse(e, "file access in the arguments of a call on a sub-buffer")
+            old = self.filevar
+            self.filevar = sub
+            try:
+                p, v, t = self.call(e)
+            finally:
+                self.filevar = old
+            return [_re.sub(r"\binp\b", sub, x) for x in p], v, t
+        if isinstance(f, ast.Attribute) and self.is_file(f.value) and f.attr == "tell" and self.io == "out" and not args and not e.keywords \
+                and self.spec.get("tell"):
+            # the position: where the method started (explicit parameter pos0) plus what it has written so far
+            return [], "(pos0 + py_len out)", "int"
+        if isinstance(f, ast.Attribute) and self.is_file(f.value) and f.attr == "seek" and self.io == "inp" and len(args) == 2 \
+                and not e.keywords and self.dotted(args[1]) == "os.SEEK_CUR" and self.is_module("os") and self.ty.get(self.filevar) != "filebuf":
+            p, n, t = self.expr(args[0])
+            if t != "int":
+                self.refuse(e, "seek offset")
+            # relative seek forward (past the end is allowed); backward is not expressed
+            return p + ["do _ <- (if %s <? 0 then Err EUnsupported else Ok tt);" % n, "let inp := snd (rd_read inp %s) in" % n], "tt", "none"
+        if isinstance(f, ast.Name) and f.id == "__field" and len(args) == 2 and isinstance(args[0], ast.Name) \
+                and self.ty.get(args[0].id) in CLASSES3:
+            r = self.ty[args[0].id]
+            return [], "(%s_%s %s)" % (r, args[1].value, args[0].id), CLASSES3[r][args[1].value]
+        if isinstance(f, ast.Name) and f.id == "__getkey" and len(args) == 1 and isinstance(args[0], ast.Name):
+            t = self.ty.get(args[0].id, "")
+            if not t.startswith("key:"):
+                return [], args[0].id, t
+            t1 = self.fresh()
+            return ["do %s <- py_unwrap %s;" % (t1, args[0].id)], t1, t[4:]       # KeyError
+        if isinstance(f, ast.Name) and f.id == "ArchiveTimestamp" and len(args) == 1 and not e.keywords and self.module is not None \
+                and "ArchiveTimestamp" not in self.local_names() and any(
+                    isinstance(st, ast.ImportFrom) and st.module == "py7zr.helpers" and any(a.name == "ArchiveTimestamp" and a.asname is None for a in st.names)
+                    for st in self.module.body):
+            # helpers.ArchiveTimestamp is a subclass of int without __new__/__init__: ArchiveTimestamp(v) is the integer v
+            p, v, t = self.expr(args[0])
+            if t != "int":
+                self.refuse(e, "ArchiveTimestamp argument type " + t)
+            return p, v, "int"
+        if isinstance(f, ast.Attribute) and f.attr == "get" and len(args) in (1, 2) and not e.keywords:
+            df = self.dict_field(f.value, args[0])
+            if df is not None and df[2].startswith("key:"):
+                dflt = args[1] if len(args) == 2 else ast.Constant(value=None)
+                inner = df[2][4:]
+                if isinstance(dflt, ast.Constant) and dflt.value is None and inner in ("optint",):
+                    # d.get(k): None when absent, else the (possibly None) value
+                    return df[0], "(match %s with Some v => v | None => None end)" % df[1], inner
+                if isinstance(dflt, ast.Constant) and dflt.value is None and inner == "str":
+                    return df[0], df[1], "optstr"
+                if isinstance(dflt, ast.Constant) and dflt.value is False and inner == "bool":
+                    return df[0], "(match %s with Some b => b | None => false end)" % df[1], "bool"
+                self.refuse(e, "dict.get default")
+        if isinstance(f, ast.Name) and f.id == "bool" and len(args) == 1 and not e.keywords and self.module is not None \
+                and "bool" not in self.local_names():
+            p, v, t = self.expr(args[0])
+            if t == "bool":
+                return p, v, "bool"
+            self.refuse(e, "bool() of " + t)
         # file.read(n)
         if isinstance(f, ast.Attribute) and self.is_file(f.value):
             if f.attr == "read" and self.io == "inp" and len(args) == 1:
@@ -966,8 +1175,31 @@ class FnTr:
             t1 = self.fresh()
             it = args[0].id
             return ["do %sn <- py_next %s;" % (t1, it), "let '(%s, %s) := %sn in" % (t1, it, t1)], t1, "int"
+        if fn == "next" and self.module is not None and len(args) == 2 and not e.keywords and isinstance(args[0], ast.Name) \
+                and self.ty.get(args[0].id) == "iter:bool" and "next" not in self.local_names() \
+                and isinstance(args[1], ast.Constant) and isinstance(args[1].value, bool):
+            t1 = self.fresh()
+            it = args[0].id
+            return ["let '(%s, %s) := py_next_default %s %s in" % (t1, it, it, "true" if args[1].value else "false")], t1, "bool"
+        if fn == "any" and self.spec.get("out") == "ArchiveinfoRecords" and len(args) == 1 and not e.keywords \
+                and isinstance(args[0], ast.GeneratorExp) and "any" not in self.local_names():
+            ge = args[0]
+            g = ge.generators[0]
+            if len(ge.generators) != 1 or g.ifs or g.is_async or not isinstance(g.target, ast.Name) or g.target.id in self.ty:
+                self.refuse(e, "any() form")
+            p, v, t = self.expr(g.iter)
+            elty = "bool" if t == "boollist" else t[5:] if t.startswith("list:") else self.refuse(e, "any() over " + t)
+            saved = dict(self.ty)
+            self.ty[g.target.id] = elty
+            pc, c = self.test(ge.elt)
+            self.ty = saved
+            if pc:
+                self.refuse(e, "an element test of any() that may raise")
+            return p, "(existsb (fun %s => %s) %s)" % (g.target.id, c, v), "bool"
         if fn == "iter" and self.module is not None and len(args) == 1 and not e.keywords and "iter" not in self.local_names():
             p, v, t = self.expr(args[0])
+            if t == "boollist" and self.spec.get("out") == "ArchiveinfoRecords":
+                return p, v, "iter:bool"
             if t != "list:int":
                 self.refuse(e, "iter() of " + t)
             return p, v, "iter:int"
@@ -1069,6 +1301,8 @@ class FnTr:
                 p, v, t = self.expr(a)
                 if self.module is not None and t == "optbytes" and at == "bytes":
                     p, v, t = self.unwrap(p, v, t)
+                if self.spec.get("out") == "ArchiveinfoRecords" and t == "optint" and at == "int":
+                    p, v, t = self.unwrap(p, v, t)      # None where a number is packed: struct.error / TypeError
                 if t != at:
                     self.refuse(e, "argument type of %s.%s" % (fn, an))
                 pre += p
@@ -1235,6 +1469,18 @@ class FnTr:
             return p + pa, "(py_%s %s %s)" % (f.attr, v, a), "bool"
         if t == "path" and f.attr == "is_absolute" and not args:
             return p, "(pp_is_absolute %s)" % v, "bool"
+        if self.spec.get("out") == "ArchiveinfoRecords" and len(args) == 1 and isinstance(args[0], ast.Constant) \
+                and args[0].value == "utf-16LE" and not e.keywords:
+            t1 = self.fresh()
+            if t == "bytes" and f.attr == "decode":
+                return p + ["do %s <- py_decode_utf16le %s;" % (t1, v)], t1, "str"
+            if t == "char" and f.attr == "encode":
+                return p + ["do %s <- py_encode_utf16le_char %s;" % (t1, v)], t1, "bytes"
+            if t == "str" and f.attr == "encode":
+                return p + ["do %s <- py_encode_utf16le %s;" % (t1, v)], t1, "bytes"
+        if self.spec.get("out") == "ArchiveinfoRecords" and t == "str" and f.attr == "replace" and len(args) == 2 and not e.keywords \
+                and all(isinstance(a, ast.Constant) and isinstance(a.value, str) and len(a.value) == 1 for a in args):
+            return p, "(py_replace_char %s %d %d)" % (v, ord(args[0].value), ord(args[1].value)), "str"
         self.refuse(e, "method %s of %s" % (f.attr, t))
 
     def class_node(self):
@@ -1353,6 +1599,50 @@ class FnTr:
                         vs.append(va)
                     t1 = self.fresh()
                     return pre + ["do %s <- %s %s;" % (t1, sp["coqname"], " ".join(vs))], t1, sp["ret"]
+        if f.attr == "write" and self.io == "out" and self.fields and isinstance(f.value, ast.Name) \
+                and f.value.id.startswith("self_") and f.value.id[5:] in self.fields \
+                and (self.fields[f.value.id[5:]].startswith("opt:") or self.method_spec(self.fields[f.value.id[5:]], "write") is not None
+                     and self.method_spec(self.fields[f.value.id[5:]], "write").get("mutates")):
+            # self.x.write(file, a..) where x holds an object (or None: AttributeError) of a record class
+            fld = f.value.id[5:]
+            ft = self.fields[fld]
+            cls = ft[4:] if ft.startswith("opt:") else ft
+            sp = self.method_spec(cls, "write") if cls in CLASSES3 else None
+            if sp is None or not args or not self.is_file(args[0]) or len(args) - 1 > len(sp["args"]):
+                self.refuse(e, "call of self.%s.write" % fld)
+            callee = find_function(self.module, cls + ".write")
+            cparams = [a.arg for a in callee.args.args][2:]
+            defaults = dict(zip(reversed(cparams), reversed(callee.args.defaults)))
+            given = dict(zip(cparams, args[1:]))
+            for kw in e.keywords:
+                if kw.arg is None or kw.arg not in cparams or kw.arg in given:
+                    self.refuse(e, "keyword argument of self.%s.write" % fld)
+                given[kw.arg] = kw.value
+            pre, vs = [], []
+            for an, at in sp["args"].items():
+                a = given.get(an, defaults.get(an))
+                if a is None:
+                    self.refuse(e, "missing argument %s of self.%s.write" % (an, fld))
+                pa, va, ta = self.expr(a)
+                if ta != at or (pa and an not in given):
+                    self.refuse(e, "argument type of self.%s.write.%s" % (fld, an))
+                pre += pa
+                vs.append(va)
+            recv = "self_" + fld
+            if ft.startswith("opt:"):
+                t0 = self.fresh()
+                pre.append("do %s <- py_unwrap %s;" % (t0, recv))
+                recv = t0
+            t1 = self.fresh()
+            call = "do %s <- %s %s;" % (t1, sp["coqname"], " ".join([recv] + vs))
+            if sp.get("mutates"):
+                if self.kind != "objwriter" or not self.spec.get("mutates"):
+                    self.refuse(e, "a method that changes the object called from one that may not")
+                t2, t3 = self.fresh(), self.fresh()
+                return pre + [call, "let '(%s, %s) := %s in" % (t2, t3, t1),
+                              "let self_%s := %s in" % (fld, "(Some %s)" % t2 if ft.startswith("opt:") else t2),
+                              "let out := out ++ %s in" % t3], "tt", "none"
+            return pre + [call, "let out := out ++ %s in" % t1], "tt", "none"
         if isinstance(f.value, ast.Name) and self.ty.get(f.value.id) in CLASSES3 and f.attr == "write" and self.io == "out":
             cls = self.ty[f.value.id]
             sp = self.method_spec(cls, "write")
@@ -1366,8 +1656,34 @@ class FnTr:
         """self.m(..) in a record method: a pure method (is_simple), or a reader method that continues on the same file"""
         f, args = e.func, e.args
         sp = self.method_spec(self.spec["cls"], f.attr)
+        if sp is None and args and isinstance(args[-1], ast.Constant) and isinstance(args[-1].value, str):
+            # a method specialised on its last (constant str) argument
+            sp = self.method_spec(self.spec["cls"], "%s[%s]" % (f.attr, args[-1].value))
+            if sp is not None:
+                args = args[:-1]
         if sp is None:
             self.refuse(e, "method self.%s" % f.attr)
+        if sp["kind"] == "pure" and sp.get("static") and not e.keywords and len(args) == len(sp["args"]):
+            pre, vs = [], []
+            for a, (an, at) in zip(args, sp["args"].items()):
+                p, v, t = self.expr(a)
+                if t != at:
+                    self.refuse(e, "argument type of self.%s: %s" % (f.attr, t))
+                pre += p
+                vs.append(v)
+            t1 = self.fresh()
+            return pre + ["do %s <- %s %s;" % (t1, sp["coqname"], " ".join(vs))], t1, sp["ret"]
+        if sp["kind"] == "objwriter" and self.kind == "objwriter" and not sp.get("mutates") and not sp.get("tell") and args \
+                and self.is_file(args[0]) and not e.keywords and len(args) == 1 + len(sp["args"]):
+            pre, vs = [], [self.self_record()]
+            for a, (an, at) in zip(args[1:], sp["args"].items()):
+                p, v, t = self.expr(a)
+                if t != at:
+                    self.refuse(e, "argument type of self.%s: %s" % (f.attr, t))
+                pre += p
+                vs.append(v)
+            t1 = self.fresh()
+            return pre + ["do %s <- %s %s;" % (t1, sp["coqname"], " ".join(vs)), "let out := out ++ %s in" % t1], "tt", "none"
         if sp["kind"] == "method":
             if e.keywords or len(args) != len(sp["args"]):
                 self.refuse(e, "arity of self.%s" % f.attr)
@@ -1397,10 +1713,19 @@ class FnTr:
             lines = pre + ["do %s <- %s %s;" % (t1, sp["coqname"], " ".join(vs))]
             lines += ["let self_%s := %s_%s %s in" % (fld, cls, fld, t1) for fld in self.fields]
             return lines, "tt", "none"
-        if sp["kind"] == "objreader" and self.kind == "objreader" and len(args) == 1 and self.is_file(args[0]) and not e.keywords:
+        if sp["kind"] == "objreader" and self.kind == "objreader" and len(args) == 1 + len(sp["args"]) and self.is_file(args[0]) \
+                and not e.keywords and not sp.get("fuel"):
             t1 = self.fresh()
             cls = self.spec["cls"]
-            lines = ["do %sr <- %s %s inp;" % (t1, sp["coqname"], self.self_record()), "let '(%s, inp) := %sr in" % (t1, t1)]
+            pre, vs = [], []
+            for a, (an, at) in zip(args[1:], sp["args"].items()):
+                p, v, t = self.expr(a)
+                if t != at or self.has_io(a):
+                    self.refuse(e, "argument type of self.%s: %s" % (f.attr, t))
+                pre += p
+                vs.append(v)
+            lines = pre + ["do %sr <- %s %s inp%s;" % (t1, sp["coqname"], self.self_record(), "".join(" " + v for v in vs)),
+                           "let '(%s, inp) := %sr in" % (t1, t1)]
             lines += ["let self_%s := %s_%s %s in" % (fld, cls, fld, t1) for fld in self.fields]
             return lines, "tt", "none"
         self.refuse(e, "method self.%s" % f.attr)
@@ -1413,11 +1738,12 @@ class FnTr:
             pn = props[args[0].value]
             return [], pn, self.spec["selfargs"][pn]
         callee = WAVE2.get("%s.%s" % (self.spec.get("cls"), f.attr))
-        if callee is None or callee.get("selfargs") != self.spec.get("selfargs"):
+        if callee is None or callee.get("selfargs") is None or any(
+                self.spec.get("selfargs", {}).get(k) != t for k, t in callee["selfargs"].items()):
             self.refuse(e, "method self.%s" % f.attr)
         if len(args) != len(callee["args"]):
             self.refuse(e, "arity of self.%s" % f.attr)
-        pre, vs = [], list(self.spec["selfargs"])
+        pre, vs = [], list(callee["selfargs"])
         for a, (an, at) in zip(args, callee["args"].items()):
             p, v, t = self.unwrap(*self.expr(a)) if at == "int" else self.expr(a)
             if t != at:
@@ -1473,13 +1799,28 @@ class FnTr:
                 if sp is not None and sp["kind"] in ("objproc", "objreader"):
                     for fld in self.fields:
                         add("self_" + fld)
-            if isinstance(st, ast.Call) and isinstance(st.func, ast.Name) and st.func.id == "next" and len(st.args) == 1 \
+            if isinstance(st, ast.Call) and isinstance(st.func, ast.Name) and st.func.id == "next" and len(st.args) in (1, 2) \
                     and isinstance(st.args[0], ast.Name) and self.module is not None:
                 add(st.args[0].id)
             if isinstance(st, ast.Call) and self.module is not None and isinstance(st.func, ast.Attribute) \
                     and st.func.attr in ("retrieve", "write", "_read", "read") and self.io and self.spec.get("out") == "ArchiveinfoRecords" \
                     and any(self.is_file(a) for a in st.args):
                 add(self.io)
+            if isinstance(st, ast.Call) and self.module is not None and isinstance(st.func, ast.Attribute) \
+                    and isinstance(st.func.value, ast.Name) and st.func.value.id == "self" and self.io \
+                    and self.spec.get("out") == "ArchiveinfoRecords" and any(self.is_file(a) for a in st.args):
+                add(self.io)      # self.m(file, ..): a method of the class that reads / writes the file
+            if isinstance(st, ast.Call) and self.module is not None and isinstance(st.func, ast.Attribute) and st.func.attr == "write" \
+                    and self.fields and self.io == "out":
+                # self.x.write(file): x is rebound to the object after the call when that write changes its object
+                rv = st.func.value
+                fld = rv.id[5:] if isinstance(rv, ast.Name) and rv.id.startswith("self_") else (
+                    rv.attr if isinstance(rv, ast.Attribute) and isinstance(rv.value, ast.Name) and rv.value.id == "self" else None)
+                if fld in self.fields:
+                    ft = self.fields[fld]
+                    sp2 = self.method_spec(ft[4:] if ft.startswith("opt:") else ft, "write")
+                    if sp2 is not None and sp2.get("mutates"):
+                        add("self_" + fld)
             if isinstance(st, ast.Call):
                 if isinstance(st.func, ast.Attribute) and self.is_file(st.func.value):
                     add(self.io or "out")
@@ -1578,11 +1919,24 @@ class FnTr:
         if isinstance(st, ast.AnnAssign) and self.module is not None:
             # `x: list[str] = []`
             ann = ast.unparse(st.annotation).replace("List", "list")
+            if isinstance(st.target, ast.Name) and ann == "list[bool]" and isinstance(st.value, ast.List) and not st.value.elts \
+                    and self.spec.get("out") == "ArchiveinfoRecords":
+                self.ty[st.target.id] = "boollist"
+                return ["let %s : list bool := [] in" % st.target.id] + cont()
             if not (isinstance(st.target, ast.Name) and ann == "list[str]" and isinstance(st.value, ast.List)
                     and not st.value.elts):
                 self.refuse(st, "annotated assignment")
             self.ty[st.target.id] = "list:str"
             return ["let %s : list (list Z) := [] in" % st.target.id] + cont()
+        if isinstance(st, ast.Assign) and self.spec.get("out") == "ArchiveinfoRecords" and len(st.targets) == 1 \
+                and isinstance(st.targets[0], ast.Name) and isinstance(st.value, ast.Call) and self.dotted(st.value.func) == "io.BytesIO" \
+                and self.is_module("io") and len(st.value.args) == 1 and not st.value.keywords and self.io == "inp" \
+                and st.targets[0].id != self.filevar and self.ty.get(st.targets[0].id, "filebuf") == "filebuf":
+            p, v, t = self.expr(st.value.args[0])
+            if t != "bytes":
+                self.refuse(st, "io.BytesIO of " + t)
+            self.ty[st.targets[0].id] = "filebuf"
+            return p + ["let %s := %s in" % (st.targets[0].id, v)] + cont()
         if isinstance(st, ast.Assign):
             if len(st.targets) != 1:
                 self.refuse(st, "multi-target assign")
@@ -1605,7 +1959,11 @@ class FnTr:
                 return p + ["let %s := %s in" % (tg.id, v)] + cont()
             if isinstance(tg, ast.Name):
                 if self.module is not None and isinstance(st.value, ast.List) and not st.value.elts:
-                    self.refuse(st, "empty list literal without annotation")
+                    lt = self.spec.get("locals", {}).get(tg.id)
+                    if lt is None:
+                        self.refuse(st, "empty list literal without annotation")
+                    self.ty[tg.id] = lt      # the element type is given by the spec (checked by the uses: append of that type)
+                    return p + ["let %s : %s := [] in" % (tg.id, coq_ty(lt))] + cont()
                 self.ty[tg.id] = "boollist" if t == "list:bool" else t
                 if t == "list:int" and not st.value.elts if isinstance(st.value, ast.List) else False:
                     self.ty[tg.id] = "boollist"  # `result = []` in read_boolean
@@ -1635,6 +1993,33 @@ class FnTr:
                 return pi + ["do %s <- py_index %s %s;" % (t0, arr, i)] + p + \
                     ["do %s <- py_setitem %s %s %s;" % (arr, arr, i, v)] + cont()
             self.refuse(st, "augassign target")
+        if isinstance(st, ast.Expr) and self.spec.get("out") == "ArchiveinfoRecords" and isinstance(st.value, ast.Call) \
+                and isinstance(st.value.func, ast.Name) and st.value.func.id == "list" and "list" not in self.local_names() \
+                and "map" not in self.local_names() and len(st.value.args) == 1 and not st.value.keywords \
+                and isinstance(st.value.args[0], ast.Call) and isinstance(st.value.args[0].func, ast.Name) \
+                and st.value.args[0].func.id == "map" and len(st.value.args[0].args) == 3 and not st.value.args[0].keywords \
+                and isinstance(st.value.args[0].args[0], ast.Lambda):
+            # list(map(lambda x, y: x.update({"k": y}), L, V)): for the pairs of zip(L, V), the dict x gets x["k"] = y
+            lam, lst, vec = st.value.args[0].args
+            ps = [a.arg for a in lam.args.args]
+            b = lam.body
+            ok = len(ps) == 2 and not lam.args.defaults and isinstance(b, ast.Call) and isinstance(b.func, ast.Attribute) \
+                and b.func.attr == "update" and isinstance(b.func.value, ast.Name) and b.func.value.id == ps[0] \
+                and len(b.args) == 1 and not b.keywords and isinstance(b.args[0], ast.Dict) and len(b.args[0].keys) == 1 \
+                and isinstance(b.args[0].keys[0], ast.Constant) and isinstance(b.args[0].values[0], ast.Name) \
+                and b.args[0].values[0].id == ps[1] and isinstance(lst, ast.Name) and lst.id.startswith("self_")
+            if not ok:
+                self.refuse(st, "list(map(lambda ...)) form")
+            lt = self.ty.get(lst.id, "")
+            rec = lt[5:] if lt.startswith("list:") else ""
+            key = b.args[0].keys[0].value
+            pv, vv, tv = self.expr(vec)
+            if rec not in DICT_RECORDS or key not in CLASSES3[rec] or pv:
+                self.refuse(st, "list(map(lambda ...)) over %s" % lt)
+            elt = "bool" if tv == "boollist" else tv[5:] if tv.startswith("list:") else self.refuse(st, "map over " + tv)
+            fv, _ = self.coerce(st, "y", elt, CLASSES3[rec][key])
+            flds = " ".join(fv if fk == key else "(%s_%s x)" % (rec, fk) for fk in CLASSES3[rec])
+            return ["let %s := py_zip_update (fun x y => mk%s %s) %s %s in" % (lst.id, rec, flds, lst.id, vv)] + cont()
         if isinstance(st, ast.Expr):
             c = st.value
             if isinstance(c, ast.Call) and isinstance(c.func, ast.Attribute) and self.kind == "objmethod" \
@@ -1741,14 +2126,14 @@ class FnTr:
             p, c = self.test(st.test)
             # the continuation is duplicated into both branches (functions are small)
             saved = dict(self.ty)
-            a = self.block(st.body, cont)
+            a = self.try_block(st.body, cont)
             ty_a = self.ty
             self.ty = dict(saved)
-            b = self.block(st.orelse, cont)
+            b = self.try_block(st.orelse, cont)
             for kx, vx in ty_a.items():
                 self.ty.setdefault(kx, vx)
             return p + ["if %s then" % c] + ["  " + x for x in a] + ["else"] + b
-        if isinstance(st, ast.Raise) and self.module is not None and not self.loops:
+        if isinstance(st, ast.Raise) and self.module is not None and (not self.loops or self.spec.get("out") == "ArchiveinfoRecords"):
             # raise E(...) : the function ends with Err (the arguments of the exception are not evaluated here: they must
             # be effect-free names / constants)
             x = st.exc
@@ -1892,6 +2277,9 @@ class FnTr:
                     if isinstance(n.ctx, ast.Store):
                         return True
                     # x.attr.append(..) / pop
+                if isinstance(n, ast.Subscript) and isinstance(n.value, ast.Name) and n.value.id == var and isinstance(n.ctx, ast.Store) \
+                        and isinstance(n.slice, ast.Constant) and isinstance(n.slice.value, str):
+                    return True
             for n in ast.walk(node):
                 if isinstance(n, ast.Call) and isinstance(n.func, ast.Attribute) and n.func.attr in ("append", "pop") \
                         and isinstance(n.func.value, ast.Attribute) and isinstance(n.func.value.value, ast.Name) \
@@ -1920,11 +2308,25 @@ class FnTr:
 
                 class A(ast.NodeTransformer):
                     def visit_Attribute(a, n):
-                        if isinstance(n.value, ast.Name) and n.value.id == x and n.attr in CLASSES3[rec]:
+                        if isinstance(n.value, ast.Name) and n.value.id == x and n.attr in CLASSES3[rec] and rec not in DICT_RECORDS:
                             return ast.copy_location(ast.Name(id="%s__%s" % (x, n.attr), ctx=n.ctx), n)
                         return a.generic_visit(n)
+
+                    def visit_Subscript(a, n):
+                        if isinstance(n.value, ast.Name) and n.value.id == x and rec in DICT_RECORDS and isinstance(n.slice, ast.Constant) \
+                                and isinstance(n.slice.value, str):
+                            if n.slice.value not in CLASSES3[rec]:
+                                tr.refuse(n, "key %r of the dict %s" % (n.slice.value, x))
+                            nm = ast.copy_location(ast.Name(id="%s__%s" % (x, n.slice.value), ctx=n.ctx), n)
+                            if isinstance(n.ctx, ast.Store):
+                                return nm
+                            return ast.copy_location(ast.Call(func=ast.Name(id="__getkey", ctx=ast.Load()), args=[nm], keywords=[]), n)
+                        return a.generic_visit(n)
                 new_body = [ast.Assign(targets=[ast.Name(id="%s__%s" % (x, f), ctx=ast.Store())],
-                                       value=ast.Attribute(value=ast.Name(id=x, ctx=ast.Load()), attr=f, ctx=ast.Load()))
+                                       value=(ast.Call(func=ast.Name(id="__field", ctx=ast.Load()),
+                                                       args=[ast.Name(id=x, ctx=ast.Load()), ast.Constant(value=f)], keywords=[])
+                                              if rec in DICT_RECORDS else
+                                              ast.Attribute(value=ast.Name(id=x, ctx=ast.Load()), attr=f, ctx=ast.Load())))
                             for f in CLASSES3[rec]]
                 for f, ft in CLASSES3[rec].items():
                     tr.decl["%s__%s" % (x, f)] = ft
@@ -2004,7 +2406,7 @@ class FnTr:
             self.refuse(st, "while")
         if any(isinstance(n, ast.Return) for n in ast.walk(ast.Module(body=st.body, type_ignores=[]))):
             self.refuse(st, "return inside while")
-        state = [v for v in self.assigned(st.body) if v in self.ty]
+        state = [v for v in self.assigned(st.body) if v in self.ty or (v in ("inp", "out") and self.spec.get("out") == "ArchiveinfoRecords")]
         if not state:
             self.refuse(st, "loop without state")
         pc, c = self.test(st.test)
@@ -2065,6 +2467,8 @@ class FnTr:
                 pre, xs, elty = p, v, t[5:]
             elif t == "boollist":
                 pre, xs, elty = p, v, "bool"
+            elif t == "str" and self.spec.get("out") == "ArchiveinfoRecords":
+                pre, xs, elty = p, v, "char"
             else:
                 self.refuse(st, "iteration over " + t)
         # loop variable pattern
@@ -2194,6 +2598,11 @@ class FnTr:
             if "fuel" in self.ty:
                 self.refuse(node, "a variable named fuel")
             sig = "(fuel : nat) " + sig
+        if self.spec.get("tell"):
+            if "pos0" in self.ty or "pos0" in self.local_names():
+                self.refuse(node, "a variable named pos0")
+            self.ty["pos0"] = "int"
+            sig = "(pos0 : Z) " + sig
         if self.kind in ("objfun", "objproc", "classinit"):
             cls = self.spec["cls"]
             for f, t in self.fields.items():
@@ -2280,6 +2689,26 @@ Open Scope Z_scope.
 """
 
 
+def subst_params(node, subst):
+    """a copy of the function in which the parameters of `subst` are gone and their uses are the given string constants
+    (Refused when one of them is assigned)"""
+    import copy
+    node = copy.deepcopy(node)
+    for n in ast.walk(node):
+        if isinstance(n, ast.Name) and n.id in subst and not isinstance(n.ctx, ast.Load):
+            raise Refused("parameter %s is assigned" % n.id)
+    if not all(any(a.arg == p for a in node.args.args) for p in subst):
+        raise Refused("parameter to specialise not found")
+    node.args.args = [a for a in node.args.args if a.arg not in subst]
+
+    class T(ast.NodeTransformer):
+        def visit_Name(t, n):
+            if n.id in subst:
+                return ast.copy_location(ast.Constant(value=subst[n.id]), n)
+            return n
+    return ast.fix_missing_locations(T().visit(node))
+
+
 def write_if_changed(path, text):
     old = open(path).read() if os.path.exists(path) else None
     if old != text:
@@ -2292,6 +2721,8 @@ def placeholder(name, spec):
                    + list(spec.get("state", {}).values()) + list(spec["args"].items()))
     if spec.get("fuel"):
         sig = "(fuel : nat) " + sig
+    if spec.get("tell"):
+        sig = "(pos0 : Z) " + sig
     rt = coq_ty(spec["ret"]) if spec["ret"] in COQ_TY else "unit"
     if spec["kind"] == "objmethod":
         rt = "(%s * (%s))" % (rt, " * ".join(coq_ty(t) for _, t in spec["state"].values()))
@@ -2313,7 +2744,7 @@ def placeholder(name, spec):
     if spec["kind"] == "init":
         cls = spec["cls"]
         return "%s\nDefinition %s : %s := mk%s %s." % (record_text(cls), spec["coqname"], cls, cls,
-                                                      " ".join(DEFAULT_VALUE[t] for t in CLASSES3[cls].values()))
+                                                      " ".join("None" if t.startswith("opt:") or t.startswith("key:") else DEFAULT_VALUE[t] for t in CLASSES3[cls].values()))
     if spec["kind"] == "reader":
         return "Definition %s (inp : bytes) %s : res (%s * bytes) :=\n  Err EOther." % (name, sig, rt)
     if spec["kind"] == "writer":
@@ -2370,6 +2801,42 @@ def main():
                     and isinstance(n.func.value, ast.Attribute) and isinstance(n.func.value.value, ast.Name) and n.func.value.value.id == "self")
                 for n in ast.walk(node))
 
+    for _round in range(3):
+        for name, spec in WAVE2.items():
+            if spec["kind"] == "objwriter" and not spec.get("mutates") and spec.get("cls") in CLASSES3:
+                try:
+                    node = find_function(load(spec["file"]), spec["qual"])
+                except (OSError, SyntaxError):
+                    node = None
+                for n in (ast.walk(node) if node is not None else []):
+                    if isinstance(n, ast.Call) and isinstance(n.func, ast.Attribute) and n.func.attr == "write" \
+                            and isinstance(n.func.value, ast.Attribute) and isinstance(n.func.value.value, ast.Name) \
+                            and n.func.value.value.id == "self":
+                        ft = CLASSES3[spec["cls"]].get(n.func.value.attr, "")
+                        c2 = ft[4:] if ft.startswith("opt:") else ft
+                        sp2 = WAVE2.get(c2 + ".write")
+                        if sp2 is not None and sp2.get("mutates"):
+                            spec["mutates"] = True
+
+    # explicit self parameters that exist only when the source reads the property
+    for name, spec in WAVE2.items():
+        if spec.get("opt_self_props"):
+            try:
+                node = find_function(load(spec["file"]), spec["qual"])
+            except (OSError, SyntaxError):
+                node = None
+            read = set()
+            for n in (ast.walk(node) if node is not None else []):
+                if (isinstance(n, ast.Call) and isinstance(n.func, ast.Attribute) and n.func.attr == "_get_property"
+                        and isinstance(n.func.value, ast.Name) and n.func.value.id == "self" and len(n.args) == 1
+                        and isinstance(n.args[0], ast.Constant)):
+                    read.add(n.args[0].value)
+            spec["selfargs"], spec["self_props"] = dict(spec["selfargs"]), dict(spec["self_props"])
+            for key, (pn, pt) in spec["opt_self_props"].items():
+                if key in read:
+                    spec["selfargs"][pn] = pt
+                    spec["self_props"][key] = pn
+
     # ---- second wave: one file per source area
     for out, desc in OUT_FILES.items():
         srcdesc, requires = desc[0], desc[1]
@@ -2399,6 +2866,8 @@ def main():
                 elif spec["kind"] == "retrieve":
                     text = retrieve_text(tree, spec["cls"], spec)
                 else:
+                    if spec.get("subst"):
+                        node = subst_params(node, spec["subst"])
                     tr = FnTr(name, node, spec["kind"], spec["args"], spec["ret"], module=tree, spec=spec)
                     text = tr.translate()
                 lineno = getattr(node, "lineno", 0)
